@@ -146,7 +146,7 @@
     (if (list? list)
         (let loop ((rest list) (n 0))
           (if (null? rest) n (loop (cdr rest) (+ n 1))))
-        (error "length: not a proper list" list)))
+        (error "length: not a proper list")))
 
 (define (memq obj list)
     (cond
